@@ -119,6 +119,7 @@ PROPS["C02"] = dict(
 
 PROPS["C18"] = dict(
     name="c18", thorough_rounds=30, sources=["props/c18.cpp"], engine="enumerator",
+    ldflags=["-Wl,--wrap=getrandom,--wrap=getentropy,--wrap=read,--wrap=open,--wrap=open64,--wrap=gettimeofday"],
     builds=[("asan", "native")],
     builds_thorough=[("asan", "native"), ("asan", "portable")],
     level="exploration",
@@ -128,10 +129,15 @@ PROPS["C18"] = dict(
           "ChaCha20-IETF keystream with nonce 'LibsodiumDRG' under 3 CPU masks. (c) 50 generating APIs (29 *_keygen, 3 X25519 key pairs, Ed25519 key pair, secretstream header, 2 sealed boxes, 5 password-hash "
           "string functions, random Edwards/Ristretto points, random scalars with scripts forcing the rejection loop (>=L, zero, exactly L, L-1 with masked bits), randombytes_buf/random); a quarter of the cases first call randombytes_stir / randombytes_close (in four orders) on the installed source, which must stay the one in use): output equals the "
           "documented function of the served bytes (reference X25519 / Ed25519 / Ristretto / Base64 models), requested bytes >= secret size, replaying the same script reproduces the output, flipping one "
-          "served byte that the specification uses changes it. Non-trivial = uniform scripts with >=1 rejection; every deterministic length >= 1; every generator case; distinct = (n, script) / (len, mask) / (API, script seed)."),
+          "served byte that the specification uses changes it. (d) the two sources the library ships, on a scripted kernel: getrandom(2), read(2)/open(2) and gettimeofday(2) are interposed at link time; 240 scenarios (thorough 1500) in forked children, "
+          "half with getrandom available (failing with EINTR/EAGAIN up to 3 times in a row), half with getrandom = ENOSYS so that /dev/urandom is read (short reads of 1..n bytes, EINTR/EAGAIN). sysrandom (the default source): 6..15 operations from "
+          "{randombytes_buf/randombytes of 1..1500 bytes at 16 alignments, randombytes_random, randombytes_uniform with high-rejection bounds, keygen 32/64, crypto_box_keypair, randombytes_close, randombytes_stir}; oracle: every output byte was written by the kernel "
+          "source during the call and holds the byte served for that address, random = the 4 bytes served, uniform = first accepted draw of the served bytes. internal (ChaCha20-based) source: at least 32 seed bytes are requested from the kernel before the first output, "
+          "during randombytes_stir() and before the first output after randombytes_close(); flipping one bit in one of the 32 seed bytes (first seeding, reseeding) in a second child changes what is generated afterwards (RDRAND masked, clock scripted). Non-trivial = uniform scripts with >=1 rejection; every deterministic length >= 1; every generator case; distinct = (n, script) / (len, mask) / (API, script seed)."),
     exhaustive_axes="deterministic lengths 0..1100; rejection depth 0..4 with all orders of threshold-adjacent draws",
     assumptions=ASSUME_COMMON + ["crypto_core_ed25519_random is compared with the library's own crypto_core_ed25519_from_uniform applied to the served bytes (the map itself is C07's claim)",
-                                 "bits a specification ignores (X25519 clamp bits, Ristretto top bits) are not used as perturbation positions"],
+                                 "bits a specification ignores (X25519 clamp bits, Ristretto top bits) are not used as perturbation positions",
+                                 "built-in sources: the kernel interface is the glibc getrandom()/read()/open() entry points the library calls; a child that the library aborts (sodium_misuse) while the scripted kernel behaves as a real one may counts as a failure"],
 )
 
 PROPS["C04"] = dict(
@@ -343,3 +349,24 @@ PROPS["C11"] = dict(
     assumptions=["decides the binaries produced by clang 14 -O2 (trace monitor) and gcc 12 -O2 (valgrind monitor) from /repo's working tree; hand-written assembly is only visible to the valgrind monitor",
                  "instruction-level timing (variable-latency instructions, micro-architectural effects) is outside the property"],
 )
+
+
+# ---- additions of round 6 (appended to the rule texts so that the evidence describes what actually runs)
+ROUND6_ADD = {
+ "C03": "long_requests: single STREAM / XOR requests of 16383..65600 bytes (thorough up to 262145) for every cipher and mask, and one of 4 MiB + 64..163 bytes for the reduced-round Salsa20 variants (thorough: every cipher): the block counter of one call walks across its byte carries (blocks 256, 512, 65536), the only way to reach them for the variants without a counter parameter.",
+ "C04": "Hard keys: clamped Poly1305 r values solved offline (tools/poly1305_hard_keys.c: modular square roots mod 2^130-5 filtered for valid keys, ref/poly1305_hard_keys.inc) so that r^2 or r^4 - the powers the vectorised back end precomputes - has one 44-bit or 26-bit limb tiny or saturated with the next limb odd / even; each is run over 20 lengths 16..1000, one-shot and streamed, under every mask.",
+ "C05": "Solved outputs also aim at sparse results (non-zero in a single 64-bit word, 32-bit word or byte of the 32 output bytes). bulk_ladders: 128000 (thorough 400000) uniformly random (scalar, point) pairs per worker and build go through the AVX assembly ladder and the portable ladder and are compared with each other (no big-integer model in the loop; one pair per 512 and every disagreeing pair is judged by the RFC 7748 model): defects that depend on internal limb values of one ladder (measured example: 1.25e-6 of random pairs) cannot be aimed at, only met by volume.",
+ "C07": "Solved scalar multiplications also aim at results one byte away from the encoding of the identity (01 00..00 with one further non-zero byte, both signs; 64 byte values per position, thorough all 255; the library's validity test is only a pre-filter). scalar_solved_results: the result T of scalar mul / reduce / add / sub / invert and of sc25519_muladd (S = h*a + r of signing, called through the internal entry point) is chosen first - one limb in radix 2^21 (the representation used by sc25519_*), 2^32 or 2^64 all zeros, all ones, 1 or its top bit, next limb odd / even - and the operands are solved for (b = T/a, T + k*L over 64 bytes, c = T - a*b with a clamped b), 10 (thorough 48) repetitions per pattern.",
+ "C08": "Foreign Argon2 strings also carry too little memory for their lanes (2p <= m < 8p, RFC 9106 requires m >= 8p): needs_rehash must return -1 and verification must fail.",
+ "C09": "Half of the genuine empty-message chunks are pulled with m == NULL (an empty message needs no output buffer).",
+ "C10": "huge_inputs: inputs whose bit length (2^29 + 77 bytes) no longer fits 32 bits - and in the thorough tier whose byte length does not (2^32 + 5 bytes, one buffer per build) - as associated data of ChaCha20-Poly1305-IETF, XChaCha20-Poly1305, AES-256-GCM (thorough: AEGIS-128L/256, whose software AES needs tens of seconds) and as message of BLAKE2b (one-shot and two updates, every compression backend), Poly1305, SHA-256, SHA-512, HMAC-SHA-256, HMAC-SHA-512-256, SipHash: equal under every mask, digests compared across builds. constants: the 282 exported accessor functions that return a documented constant (crypto_secretbox_keybytes() ...; list generated from the public headers by tools/gen_getters.py into harness/getters.inc) must return the value of the macro that documents them, in every build.",
+ "C11": "Operations added: crypto_core_ed25519_scalar_is_canonical / crypto_core_ristretto255_scalar_is_canonical on a secret scalar (verdict public and equal within each pair: all pair members are canonical, two of them lie in [2^252, L)); sodium_pad / sodium_unpad with block sizes 24 and 100 (the modulo path of block sizes that are not a power of two; trace monitor only).",
+ "C12": "The noasm build allocates its work areas with posix_memalign instead of mmap (HAVE_MMAP dropped), so that an overrun of a few bytes past the scrypt region or a guarded allocation is not hidden by page granularity. The hash-to-group drivers use a context longer than 255 bytes (the oversize-DST path) in one case of six.",
+ "C13": "Offsets beyond +-80 (30 distances 81..700 around one and two 256/512-byte vector strides, both directions, 2..4 lengths each that keep the buffers overlapping, thorough 12). Opening calls that must fail (secretbox / box open, sign_open) with overlap offsets -80..80: same verdict as with disjoint buffers; where the disjoint call wipes its output (sign_open) the overlapped output must hold the same bytes, otherwise no 16-byte window of the plaintext may appear in the shared buffer.",
+ "C15": "The length macro sodium_base64_ENCODED_LEN is also evaluated with compound expressions as arguments (h + (n - h), n + one - 1, n << 0, n ? n : 0, n | 0, base | mask, ...). Decoding also runs with ignore sets that have 8-bit members (bytes a0 ff 80, and newline + UTF-8 NBSP) on every text that contains a byte >= 0x80, and such bytes are inserted at every position of valid encodings.",
+ "C16": "giant_buffers: sparse 4..16 GiB private mappings (untouched pages cost nothing): sodium_pad / sodium_unpad with unpadded lengths 2^32-1 .. 3*2^32+12345 x block sizes {3, 7, 10, 16, 100, 255, 1000, 4096, 4097, 65537} x capacity padded-1 / padded / padded+1, and sodium_unpad over one block of 2^32+16 bytes with more than 2^32 zero bytes after the marker (thorough: three such blocks).",
+ "C17": "Overflow pairs with both factors above 2^32 ((2^32+i, 2^32+j), (2^sh+i, 2^(64-sh)+i)): the true product exceeds 2^64 while the wrapped product is moderate and not smaller than either factor.",
+ "C19": "Second phase of every unfocused trial: the main thread prepares read-only objects (AES-256-GCM state from beforenm, two precomputed box keys, an Ed25519 key pair with a signed message, MAC / secretbox keys, a keyed BLAKE2b state that every thread copies), in the internal-RNG family calls randombytes_close(), then N new threads draw 32 random bytes and run encrypt_afternm / box_easy_afternm / sign_verify_detached / sign_detached / keyed generichash / secretbox / auth on private buffers with those shared const inputs; per-thread digests are recomputed sequentially, the draws compared across threads.",
+}
+for _k, _v in ROUND6_ADD.items():
+    PROPS[_k]["rule"] = PROPS[_k]["rule"] + " " + _v
